@@ -25,6 +25,8 @@
  *     lost:<c>                          coap_session_disconnected() on the server session of c
  *     del:<r>                           coap_delete_resource(), then the resource is created again
  *     idle                              400 s pass, then one turn of the I/O loop
+ *     init:<r>:<v>                      coap_persist_set_observe_num(r, v) (only before the first
+ *                                       registration: a server restarting from persisted state)
  *
  * trace line (events in the order in which they happened):
  *   K non=<COAP_OBS_MAX_NON> fail=<COAP_OBS_MAX_FAIL>
@@ -442,6 +444,9 @@ static void c11(void) {
           R[r].state++;
           coap_resource_notify_observers(R[r].res, NULL);
         }
+    } else if (!strcmp(op, "init") && nf >= 3) {
+      int r = atoi(f[1]);
+      if (r >= 0 && r < nres) coap_persist_set_observe_num(R[r].res, (uint32_t)strtoul(f[2], NULL, 10));
     } else if (!strcmp(op, "io")) {
       turn();
     } else if (!strcmp(op, "adv") && nf >= 2) {
